@@ -48,12 +48,32 @@ a pair differing in any one name (also `_`) or in the class is !=; bool against 
 that field's bits, assignment of `_` no bit of a named field; parsed pairs are == exactly when all fields are equal.  The laws that
 dump are evaluated where the writer can encode the folded `_` value in every `_` member (see v5_c17.DUMP_MIXED_PADS for the
 excluded class and the behaviour of the unmodified library there).
+
+Value kinds and members with their own == / hash (harness/v6_c17.py; the expected dump is computed by the harness from the C layout
+rule and the standard encodings, packed / aligned x compiled / interpreted x endianness x pointer size):
+  * value kinds: flat fixed-size structures (integers of 1..16 bytes, bit-field runs, enums / flags, char, char[k], wchar, wchar[k],
+    floats, pointers, integer arrays); every field is given each kind of Python value its type's writer encodes - char: bytes,
+    bytearray, int (bool, int subclass, IntEnum / cstruct enum member, cstruct integer), str, with ALL 256 character codes as int, as
+    str and as bytes; char[k]: bytes, bytearray, memoryview, str, list of ints; wchar: str (subclass); integers / bit-fields / pointers:
+    int, bool, int subclass, enum members, cstruct integers, Pointer; enums: member by value / name / composed flag (a plain int is
+    rejected by the unmodified writer: counted); floats: float, int, bool, ... - by attribute assignment on a parsed instance, by
+    keyword and positionally.  dumps() must be len(T) bytes, equal the dump before outside the field's bytes (bits), hold there the
+    standard encoding of the value (latin-1 for char); constructions must dump like, be == to and hash like the default instance with
+    the same values assigned; the dump re-parses to the own-kind values and `==` against the assigned instance follows the field-wise
+    predicate.
+  * special members: structures with void members (scalar, fixed-count arrays, inside named / anonymous nested structures and arrays
+    of structures, void pointers), enums / flags with values named twice, nested structures, unions of integers: instances holding
+    equal fields made by parsing the same bytes twice, keywords (void given or left out), assignment and positionally are ==, not !=,
+    and - WHENEVER both are hashable - hash equally and find each other in sets / dicts (unhashable instances are counted); a pair
+    differing in one member is !=; bool against any(fields); assigning a fresh void changes nothing.  The hash law leaves out pairs
+    that hold differently NAMED equal enum members / a member against its integer (v6_c17.HASH_ENUM_NAME_PAIRS: the unmodified
+    library hashes members by name but compares them by value - reported).
 """
 from __future__ import annotations
 
 import itertools
 
-from .. import defs, impl, refimpl, s6_c17, u4_c17, v4_c17, v5_c17
+from .. import defs, impl, refimpl, s6_c17, u4_c17, v4_c17, v5_c17, v6_c17
 from ..common import Case, Result, mkrng
 from ..structprops import rand_bytes
 
@@ -85,7 +105,18 @@ def run(env) -> Result:
                 "positional / keyword / partial constructions against assignment on T() (fields, ==, hash, dumps), equal instances made by "
                 "keywords / assignment / positionally / parse, a differing pair for every name and for the twin class, bool, assignment "
                 "locality by the reader's bit masks, parsed one-bit pairs == iff fields equal (dump laws only where every `_` member can "
-                "encode the folded `_` value). distinct = "
+                "encode the folded `_` value). v6_c17 (expected dumps computed from the C layout rule and the standard encodings; packed/aligned x "
+                "compiled/interpreted x endianness x pointer size): (a) every field of flat structures (ints of 1..16 bytes, bit-fields, enums, "
+                "char, char[k], wchar, wchar[k], floats, pointers, int arrays) given each Python value kind its writer encodes (char: bytes / "
+                "bytearray / int incl. bool, int subclasses, enum members / str, all 256 character codes each as int, str and bytes; char[k]: "
+                "bytes-likes, str, list of ints; ints / bit-fields / pointers / floats: int, bool, subclasses, IntEnum and cstruct enum members, "
+                "cstruct numbers; enums: member by value / name / composed) by attribute assignment, keyword and positional construction: "
+                "dumps is len(T) bytes, unchanged outside the field, the standard encoding (latin-1 for char) inside, constructions equal the "
+                "default instance with the values assigned, the dump re-parses to the own-kind values, == follows the field-wise predicate; "
+                "(b) structures with void members (scalar, fixed arrays, in nested / anonymous structures, arrays of structures, void *), "
+                "alias-valued enums / flags, nested structures, integer unions: equal instances made by two parses / keywords / assignment / "
+                "positionally are ==, and whenever both hashable hash equally and meet in sets / dicts (unhashable: counted), one differing "
+                "member gives !=, bool = any(fields), assigning a fresh void changes nothing. distinct = "
                 "(definition, instance bytes, operation); non-trivial = >= 2 fields")
     dc = impl.dc()
     rnd = mkrng(env["seed"], "c17")
@@ -246,6 +277,10 @@ def run(env) -> Result:
     v4_c17.run(env, res, viol, mkrng(env["seed"], "c17:v4"), 120 if tier == "quick" else 1500)
     # repeated discard members (`_` declared 2..4 times, folded into one field): defaults, construction, equality / hash / bool, locality
     v5_c17.run(env, res, viol, mkrng(env["seed"], "c17:v5"), 150 if tier == "quick" else 2500)
+    # every value kind a field's writer accepts (all 256 character codes through char), by assignment / keyword / positionally
+    v6_c17.run_values(env, res, viol, mkrng(env["seed"], "c17:v6a"), 60 if tier == "quick" else 1200)
+    # void members, alias-valued enums, nested structures, unions: == / hash / bool of equal instances made five ways
+    v6_c17.run_special(env, res, viol, mkrng(env["seed"], "c17:v6b"), 150 if tier == "quick" else 4000)
     res.sample({"field_counts": counts, "colliding_names": RISKY[:8]})
     return res
 
